@@ -669,3 +669,82 @@ func (f *FlowResult) VerdictCheck(br *Instr) (ok bool, why string) {
 	}
 	return false, "no arm of the branch is a pure 'store constant verdict and return' path"
 }
+
+// VecDefBeforeUse: forward must-analysis over the routine's CFG. A vector or mask register is "defined" once an instruction
+// has written it on every path from the entry (assembler routines get their arguments on the stack: every vector register
+// holds whatever the previous caller left there). Reading a register that is not defined makes the result depend on
+// state that is not an input of the call. Zeroing idioms (x XOR x) are writes. Returns one line per offending read.
+func VecDefBeforeUse(rt *Routine, flow *FlowResult) []string {
+	n := len(rt.Instrs)
+	isVec := func(r string) bool {
+		if len(r) < 2 {
+			return false
+		}
+		if r[0] == 'V' || r[0] == 'K' {
+			c := r[1]
+			return c >= '0' && c <= '9'
+		}
+		return false
+	}
+	type set map[string]bool
+	in := make([]set, n) // nil = not reached yet (top)
+	in[0] = set{}
+	work := []int{0}
+	queued := map[int]bool{0: true}
+	out := func(i int) set {
+		o := set{}
+		for k := range in[i] {
+			o[k] = true
+		}
+		if e := flow.Effects[i]; e != nil {
+			for _, w := range e.Writes {
+				if isVec(w) {
+					o[w] = true
+				}
+			}
+		}
+		return o
+	}
+	for len(work) > 0 {
+		i := work[0]
+		work = work[1:]
+		queued[i] = false
+		o := out(i)
+		for _, s := range rt.Instrs[i].Succ {
+			changed := false
+			if in[s] == nil {
+				in[s] = o
+				changed = true
+			} else {
+				for k := range in[s] {
+					if !o[k] {
+						delete(in[s], k)
+						changed = true
+					}
+				}
+			}
+			if changed && !queued[s] {
+				queued[s] = true
+				work = append(work, s)
+			}
+		}
+	}
+	var bad []string
+	seen := map[string]bool{}
+	for i, ins := range rt.Instrs {
+		e := flow.Effects[i]
+		if e == nil || in[i] == nil || e.ZeroIdiom {
+			continue
+		}
+		for _, r := range e.Reads {
+			if isVec(r) && !in[i][r] {
+				key := ins.Pos + " " + r
+				if !seen[key] {
+					seen[key] = true
+					bad = append(bad, fmt.Sprintf("%s: %s reads %s, which no instruction has written on some path from the entry", ins.Pos, strings.TrimSpace(ins.Raw), r))
+				}
+			}
+		}
+	}
+	return bad
+}
